@@ -92,26 +92,21 @@ class IPv4(object):
                 line = line.replace(ip, new_ip)
                 # shift past port specification to add spaces
                 idx = line.index(new_ip) + new_ip_len
-                c = line[idx]
-                while c != " ":
+                while idx < len(line) and line[idx] not in " \n":
                     idx += 1
-                    if idx == len(line):
-                        idx = len(line) - 1
-                        break
-                    c = line[idx]
                 return line[0:idx] + numspaces * " " + line[idx:]
             elif new_ip_len > ip_len:
                 numspaces = new_ip_len - ip_len
                 line = line.replace(ip, new_ip)
                 # shift past port specification to skip spaces
                 idx = line.index(new_ip) + new_ip_len
-                c = line[idx]
-                while c != " ":
+                while idx < len(line) and line[idx] != " ":
                     idx += 1
-                    if idx == len(line):
-                        break
-                    c = line[idx]
-                return line[0:idx] + line[(idx + numspaces) :]
+                # drop padding only: never a character that is not a space, nor the last separating space
+                end = idx
+                while end - idx < numspaces and line[end : end + 2] == "  ":
+                    end += 1
+                return line[0:idx] + line[end:]
             else:
                 return line.replace(ip, new_ip)
 
